@@ -283,4 +283,53 @@ theorem run_spec (L : Nat) : ∀ (reqs : List (Nat × Str)) (st : TState), Shape
         simp only [runIdents, List.getElem?_cons_succ] at hr
         exact t6 j q r hq hr
 
+
+/-! ## limits over the engine's life -/
+
+/-- the configured label length fits the identifier limit the dialect currently holds -/
+def LabelOK (st : DState) : Prop := effLabel st ≤ st.maxIdent
+
+theorem connect_ok_labelOK (st : DState) (lim : Option Nat) (h : (connectStep st lim).2 = .connected) :
+    LabelOK (connectStep st lim).1 := by
+  unfold connectStep at h ⊢
+  cases hl : st.labelLength with
+  | none => simp [LabelOK, effLabel, hl]
+  | some ll =>
+    simp only [hl] at h ⊢
+    by_cases hc : (ll != 0 && ll > newMaxIdent st lim) = true
+    · simp [hc] at h
+    · simp only [hc, Bool.false_eq_true, if_false, LabelOK, effLabel, hl]
+      simp only [Bool.and_eq_true, bne_iff_ne, ne_eq, decide_eq_true_eq, not_and, Nat.not_lt] at hc
+      by_cases h0 : ll = 0
+      · subst h0; simp
+      · have h0' : (ll == 0) = false := by simpa using h0
+        simp only [h0', Bool.false_eq_true, if_false]
+        exact hc h0
+
+theorem lifeStep_fmt_state (md5 : Str → Str) (st : DState) (op : LOp)
+    (h : ∀ lim, op ≠ .connect lim) : (lifeStep md5 st op).1 = st := by
+  cases op with
+  | connect lim => exact absurd rfl (h lim)
+  | fmtIndex _ _ => rfl
+  | fmtConstraint _ _ => rfl
+  | label _ => rfl
+
+/-- a single label rendered by a fresh compiler is at most the effective label length -/
+theorem single_label_len (L : Nat) (hL : 6 ≤ L) (n : Str) :
+    (truncIdent L TState.empty 0 n).1.length ≤ L := by
+  unfold truncIdent
+  simp only [TState.empty, List.lookup_nil]
+  split
+  · rename_i ht
+    have hlen := (truncForm_len L n (getCounter ⟨[], []⟩ 0) ht).1
+    have hh : (hexStr (getCounter ⟨[], []⟩ 0)).length ≤ 5 := by
+      have : getCounter ⟨[], []⟩ 0 = 1 := by simp [getCounter]
+      rw [this]; exact hexStr_len 1 5 (by decide) (by omega)
+    unfold truncForm at hlen
+    simp only at hlen ⊢
+    omega
+  · rename_i ht
+    simp only
+    omega
+
 end SaVerif.Naming
